@@ -472,7 +472,10 @@ class EventManager(MpfController):
         for key in _keys:
             self.remove_handler_by_key(key)
 
-        if _future.cancelled():
+        # the future may be cancelled, or already resolved: a queue event which took its
+        # snapshot of the handlers before another event of the list resolved the future
+        # still calls this handler once
+        if _future.done():
             return
         _future.set_result(kwargs)
 
